@@ -43,6 +43,25 @@ def run_shard(cid, tier, seed, shard, nshards, out):
                 for k, v in value.items():
                     sub[k] = sub.get(k, 0) + v
 
+    meta = {
+        'level': getattr(mod, 'LEVEL', 'exploration'),
+        'rule': getattr(mod, 'RULE', ''),
+        'assumptions': getattr(mod, 'ASSUMPTIONS', []),
+        'required_stats': getattr(mod, 'REQUIRED_STATS', []),
+        'exhaustive': bool(getattr(mod, 'EXHAUSTIVE', False)) and tier in getattr(
+            mod, 'EXHAUSTIVE_TIERS', ('quick', 'thorough')),
+    }
+    dumped_partial = False
+
+    def dump(partial):
+        with open(out + '.tmp', 'w') as stream:
+            json.dump({
+                'evaluations': evaluations, 'sigs': sorted(sigs), 'stats': stats,
+                'violations': violations, 'samples': samples, 'meta': meta,
+                'wall': time.time() - started, 'partial': partial,
+            }, stream, default=repr)
+        os.replace(out + '.tmp', out)
+
     if os.environ.get('VERIF_OVERLAP', '1') != '0':
         # once per shard (= per configuration): two simulations alive at once in two threads
         from . import overlap
@@ -80,20 +99,12 @@ def run_shard(cid, tier, seed, shard, nshards, out):
                 violations.append(vio)
         if len(samples) < 2 and res.get('sample') is not None:
             samples.append(res['sample'])
-    meta = {
-        'level': getattr(mod, 'LEVEL', 'exploration'),
-        'rule': getattr(mod, 'RULE', ''),
-        'assumptions': getattr(mod, 'ASSUMPTIONS', []),
-        'required_stats': getattr(mod, 'REQUIRED_STATS', []),
-        'exhaustive': bool(getattr(mod, 'EXHAUSTIVE', False)) and tier in getattr(
-            mod, 'EXHAUSTIVE_TIERS', ('quick', 'thorough')),
-    }
-    with open(out, 'w') as stream:
-        json.dump({
-            'evaluations': evaluations, 'sigs': sorted(sigs), 'stats': stats,
-            'violations': violations, 'samples': samples, 'meta': meta,
-            'wall': time.time() - started,
-        }, stream, default=repr)
+        if res.get('violations') and not dumped_partial:
+            # what has been seen so far survives a shard that does not finish in time (a change
+            # that makes every execution run into its budget): a violation found is a violation
+            dumped_partial = True
+            dump(partial=True)
+    dump(partial=False)
 
 
 def replay(cid, path):
